@@ -127,6 +127,8 @@ func (il *IPRequestLimiter) Count(ip string) int {
 // EndTime returns next reset time.
 func (il *IPRequestLimiter) EndTime() time.Time {
 	verifGate("endtime")
+	il.mux.Lock()
+	defer il.mux.Unlock()
 	return il.ResetTime.Add(il.Interval)
 }
 
